@@ -173,10 +173,19 @@ func (r *region) resolve(v ssa.Value) ssa.Value {
 		}
 		var arg ssa.Value
 		for _, s := range sites {
-			if idx >= len(s.Call.Args) || (arg != nil && s.Call.Args[idx] != arg) {
+			if idx >= len(s.Call.Args) {
+				return v
+			}
+			if s.Call.Args[idx] == ssa.Value(prm) {
+				continue // the helper calling itself with its own parameter
+			}
+			if arg != nil && s.Call.Args[idx] != arg {
 				return v
 			}
 			arg = s.Call.Args[idx]
+		}
+		if arg == nil {
+			return v
 		}
 		v = arg
 	}
